@@ -663,10 +663,9 @@ class HostInterp:
                     ok = left == right
                 elif isinstance(op, ast.NotEq):
                     ok = left != right
-                elif isinstance(op, ast.Is):
-                    ok = left is right or (isinstance(left, str) and isinstance(right, str) and left == right)
-                elif isinstance(op, ast.IsNot):
-                    ok = not (left is right or (isinstance(left, str) and isinstance(right, str) and left == right))
+                elif isinstance(op, (ast.Is, ast.IsNot)):
+                    same = left is right or (isinstance(left, str) and isinstance(right, str) and left == right) or (isinstance(left, tuple) and isinstance(right, tuple) and len(left) == 2 and left[:1] == ("class",) and left == right)
+                    ok = same if isinstance(op, ast.Is) else not same
                 elif isinstance(op, ast.In):
                     ok = left in right
                 elif isinstance(op, ast.NotIn):
@@ -714,7 +713,7 @@ class HostInterp:
         if isinstance(v, Closure):
             return lambda *a, **k: self.call_function(v.node, list(a), k, v.env)
         if isinstance(v, tuple) and len(v) == 3 and v[0] == "bound":
-            return lambda *a, **k: self.call_function(v[2], [v[1]] + list(a), k, {})
+            return lambda *a, **k: self.call_function(v[2], _receiver(v[2], v[1]) + list(a), k, {})
         return v
 
     def comp(self, c, env):
@@ -779,6 +778,10 @@ class HostInterp:
         if isinstance(fn, tuple) and fn and fn[0] == "method":
             m = self.methods[fn[1]]
             return self.call_function(m, _receiver(m, self.self_obj) + args, kwargs, {})
+        if fn is type and len(args) == 1 and isinstance(args[0], Instance):
+            return ("class", args[0]._cls_name)
+        if fn is isinstance and len(args) == 2 and isinstance(args[1], tuple) and len(args[1]) == 2 and args[1][0] == "class":
+            return isinstance(args[0], Instance) and args[0]._cls_name == args[1][1]
         if fn is hasattr and len(args) == 2 and isinstance(args[0], Instance):
             return args[1] in args[0].__dict__ or args[1] in args[0]._methods
         if fn is hash and len(args) == 1 and isinstance(args[0], Instance) and "__hash__" in args[0]._methods:
